@@ -71,6 +71,16 @@ def misc_cases():
 
 
 def enumerate_cases(tier):
+    # every usable register live across a hash-variable assignment or a
+    # Dict update, and computed with afterwards
+    for code in (1, 2, 3):
+        for live in ([3], [0], [2], [4], [5], [8], [3, 5], [0, 3, 4]):
+            for fmt in "BIQq":
+                for use in ("add", "mul", "shift", "and"):
+                    yield {"gen": "misc", "case": {
+                        "form": "regs-across-update", "fmt": fmt, "c": 26,
+                        "code": code, "helper": "ktime", "live": live,
+                        "use": use}}
     for code in (1, 2, 3):
         for fmt in "BIQq":
             for c in (0, 3, 77):
@@ -117,7 +127,14 @@ def run_misc(case):
                 e.table.value.v = case["c"]
                 e.table.value.w = 0
                 e.table.update()
+            use = case.get("use", "add")
             for no in live:
+                if use == "mul":
+                    e.r[no] = e.r[no] * 3
+                elif use == "shift":
+                    e.r[no] = e.r[no] >> 2
+                elif use == "and":
+                    e.r[no] = e.r[no] & 0xff0
                 e.vb = e.vb + e.r[no]
         elif f == "dict-then-guard":
             # a map operation is the first thing the program does (no
@@ -187,7 +204,8 @@ def run_misc(case):
                              "regs-across-update", "dict-then-guard")
                          else None,
                          tuple(case.get("live") or ())
-                         if case["form"] == "regs-across-update" else None))}
+                         if case["form"] == "regs-across-update" else None,
+                         case.get("use")))}
 
 
 def library_cases():
